@@ -176,11 +176,15 @@ def explore(run, tier):
             m, e = iu.gen_message(rng, cfg, codec)
             cases.append(c01.mk(cfg, codec, rng.randrange(2), m, e))
         for k, fc in cfg.items():
-            if fc['field_type'] in ('LLVAR', 'LLLVAR') and fc.get('field_processor') not in ('ICC', 'PDS'):
+            if (fc['field_type'] in ('LLVAR', 'LLLVAR') and fc.get('field_processor') not in ('ICC', 'PDS')
+                    and fc.get('field_python_type') != 'datetime'):      # no date is over-long
                 mx = 99 if fc['field_type'] == 'LLVAR' else 999
                 v = iu.text(rng, 'latin_1', mx + 1, 'digits')
                 if fc.get('field_python_type') in ('int', 'long'):
                     v = int('1' + v[1:])
+                if fc.get('field_python_type') == 'decimal':
+                    import decimal
+                    v = decimal.Decimal('1' + v[1:])
                 c = c01.mk(cfg, 'latin_1', 0, {'MTI': '1144', f'DE{k}': v}, {})
                 c['overlong'] = f'DE{k} with {mx + 1} characters'
                 cases.append(c)
